@@ -290,6 +290,8 @@ def run_property(prop, tier, base, workers=None):
     t_start = time.time()
     workers = workers or int(os.environ.get("VERIF_WORKERS", min(16, os.cpu_count() or 1)))
     bud = prop.budget(tier)
+    if os.environ.get("VERIF_CASES"):
+        bud["cases"] = min(bud["cases"], int(os.environ["VERIF_CASES"]))
     findings = load_findings(prop.ID)
     status = 0
     print("check %s tier=%s VERIF_SEED=%d cases=%d workers=%d" % (prop.ID, tier, base, bud["cases"], workers))
